@@ -298,7 +298,11 @@ func zz15Script(steps, ops int) []byte {
 	var s []byte
 	for i := 0; i < steps; i++ {
 		op := byte(zzsym.Choose("op", ops))
-		s = append(s, op, zzsym.U8("k"), zzsym.U8("v"))
+		k := zzsym.U8("k")
+		if d := zzsym.Param("KDOM"); d > 0 { // quick tier: keys from a d-letter alphabet (fewer key orderings)
+			zzsym.Assume(int(k) < d)
+		}
+		s = append(s, op, k, zzsym.U8("v"))
 	}
 	return s
 }
